@@ -251,7 +251,7 @@ func explainSelectWithUnionQueryWithInheritedWith(sb *strings.Builder, n *ast.Se
 	// INTO OUTFILE clause
 	for _, sel := range n.Selects {
 		if sq, ok := sel.(*ast.SelectQuery); ok && sq.IntoOutfile != nil {
-			fmt.Fprintf(sb, "%s Literal \\'%s\\'\n", indent, sq.IntoOutfile.Filename)
+			fmt.Fprintf(sb, "%s Literal \\'%s\\'\n", indent, escapeStringLiteral(sq.IntoOutfile.Filename))
 			break
 		}
 	}
@@ -374,7 +374,7 @@ func explainSelectWithUnionQueryTail(sb *strings.Builder, n *ast.SelectWithUnion
 	// INTO OUTFILE clause - check if any SelectQuery has IntoOutfile set
 	for _, sel := range n.Selects {
 		if sq, ok := sel.(*ast.SelectQuery); ok && sq.IntoOutfile != nil {
-			fmt.Fprintf(sb, "%s Literal \\'%s\\'\n", indent, sq.IntoOutfile.Filename)
+			fmt.Fprintf(sb, "%s Literal \\'%s\\'\n", indent, escapeStringLiteral(sq.IntoOutfile.Filename))
 			break
 		}
 	}
@@ -612,7 +612,7 @@ func explainOrderByElement(sb *strings.Builder, n *ast.OrderByElement, indent st
 	}
 	if n.Collate != "" {
 		// COLLATE is output as a string literal
-		fmt.Fprintf(sb, "%s Literal \\'%s\\'\n", indent, n.Collate)
+		fmt.Fprintf(sb, "%s Literal \\'%s\\'\n", indent, escapeStringLiteral(n.Collate))
 	}
 }
 
